@@ -1,6 +1,7 @@
 package checks
 
 import (
+	"os"
 	"fmt"
 	"math"
 	"sort"
@@ -72,9 +73,33 @@ func (c c06Case) String() string {
 	return fmt.Sprintf("catalog=%s nodes=%v policy=%s spotToSpot=%v minValues=%v", c.catalog, ns, c.policy, c.spot2, c.minVals)
 }
 
+// zonalCatalog(pos): seven on-demand types of one size in two zones; five cheap ones (0.10 .. 0.50 in zone a, +0.02 in
+// zone b) of which the one at position pos is DEAR in zone b (5.00), the type "cur" of the nodes to consolidate (1.00)
+// and a bigger-priced "big" (2.00). Ordering by cheapest offering and by worst-case launch price disagree for the zonal
+// type, whatever its position in the price-ordered list.
+func zonalCatalog(pos int) []world.ITSpec {
+	var out []world.ITSpec
+	for i := 0; i < 5; i++ {
+		a := 0.1 * float64(i+1)
+		b := a + 0.02
+		if i == pos {
+			b = 5.0
+		}
+		out = append(out, world.ITSpec{Name: fmt.Sprintf("z%d", i+1), CPU: 4, MemGi: 8, Pods: 8, Offers: []world.OfSpec{of("a", "on-demand", a), of("b", "on-demand", b)}})
+	}
+	out = append(out, world.ITSpec{Name: "cur", CPU: 4, MemGi: 8, Pods: 8, Offers: []world.OfSpec{of("a", "on-demand", 1.0), of("b", "on-demand", 1.0)}})
+	out = append(out, world.ITSpec{Name: "big", CPU: 4, MemGi: 8, Pods: 8, Offers: []world.OfSpec{of("a", "on-demand", 2.0), of("b", "on-demand", 2.1)}})
+	return out
+}
+
 func c06Catalog(name string) []world.ITSpec {
 	if name == "ladder" {
 		return ladderCatalog()
+	}
+	if strings.HasPrefix(name, "zonal") {
+		var pos int
+		fmt.Sscanf(name, "zonal%d", &pos)
+		return zonalCatalog(pos)
 	}
 	return catalogs[name]
 }
@@ -82,6 +107,11 @@ func c06Catalog(name string) []world.ITSpec {
 func (c c06Case) world() dWorld {
 	np := world.NodePool("default")
 	np.Spec.Disruption.ConsolidationPolicy = c.policy
+	if strings.HasPrefix(c.catalog, "zonal") {
+		// the zonal catalogs sell on-demand only: without this the OD -> [OD, spot] rule pins the request to spot, which
+		// nothing offers, and the price clauses become vacuous
+		np.Spec.Template.Spec.Requirements = append(np.Spec.Template.Spec.Requirements, v1.NodeSelectorRequirementWithMinValues{Key: v1.CapacityTypeLabelKey, Operator: corev1.NodeSelectorOpIn, Values: []string{"on-demand"}})
+	}
 	if c.minVals {
 		np.Spec.Template.Spec.Requirements = append(np.Spec.Template.Spec.Requirements, v1.NodeSelectorRequirementWithMinValues{Key: corev1.LabelInstanceTypeStable, Operator: corev1.NodeSelectorOpExists, MinValues: two()})
 	}
@@ -260,6 +290,9 @@ func (c c06Case) judge(env *DEnv, cmds []*disruptionCommand) (viol []c01Violatio
 			}
 			viol = append(viol, senv.judgeNewNodeClaim(nc, pods)...)
 			launches := senv.launchesFor(nc)
+			if os.Getenv("C06_ONLY") != "" {
+				fmt.Printf("replacement %s request %s launches=%d sum=%.2f\n", nc.Name, reqsCanon(nc.Spec.Requirements), len(launches), sum)
+			}
 			listed, _ := reqValues(nc.Spec.Requirements, corev1.LabelInstanceTypeStable)
 			// (2) worst-case launch price of every listed type strictly below the candidates' combined price
 			for _, typ := range listed {
@@ -345,17 +378,28 @@ func init() {
 			addCases("K1", kindsK1[1:4], []int{3}, []int{0, 1, 2, 4, 8})
 			addCases("ladder", kindsLadder, []int{1, 2}, []int{1, 2, 5})
 		}
+		// zone-specific prices: a type that is cheap in one zone and dear in the other, at every position of the list
+		kindsZonal := []c06NodeKind{{"cur-od", "cur", "a", "on-demand"}, {"big-od", "big", "b", "on-demand"}}
+		for pos := 0; pos < 5; pos++ {
+			addCases(fmt.Sprintf("zonal%d", pos), kindsZonal, []int{1, 2}, []int{1, 2, 4})
+		}
 		// minValues variants on the ladder
 		for _, k := range kindsLadder[:2] {
 			for _, s2 := range []bool{false, true} {
 				cases = append(cases, c06Case{catalog: "ladder", kinds: []c06NodeKind{k}, loads: []int{1}, policy: v1.ConsolidationPolicyWhenEmptyOrUnderutilized, spot2: s2, minVals: true})
 			}
 		}
-		r.Rule = fmt.Sprintf("%d clusters: multisets of 1-3 nodes over (instance type, zone, capacity type) kinds of catalogs K1/K2 and a 17-step spot price ladder x per-node loads {%s} x policy {WhenEmptyOrUnderutilized, Balanced} x SpotToSpot gate {off,on} (+ minValues variants); the real disruption controller runs Emptiness, MultiNode and SingleNode consolidation (validation delay elapsed) and the accepted commands are judged: every reschedulable pod of the removed nodes has a home on a remaining initialized node or the single replacement and passes the admission oracle there; every instance type the created replacement NodeClaim lists has a worst-case launch price (reserved > spot > on-demand) strictly below the candidates' combined price; no on-demand fallback at >= that price when a candidate is on-demand; spot-to-spot only with the gate on and, single-node, with >=15 options truncated to 15; nodes deleted as empty host no reschedulable pod with positive eviction cost. non-trivial = distinct case with a consolidation (non-Empty) command", len(cases), loadNames())
+		r.Rule = fmt.Sprintf("%d clusters: multisets of 1-3 nodes over (instance type, zone, capacity type) kinds of catalogs K1/K2, a 17-step spot price ladder and five catalogs with a zone-specific price (a type cheap in one zone and dear in the other, at each position of the price-ordered list) x per-node loads {%s} x policy {WhenEmptyOrUnderutilized, Balanced} x SpotToSpot gate {off,on} (+ minValues variants); the real disruption controller runs Emptiness, MultiNode and SingleNode consolidation (validation delay elapsed) and the accepted commands are judged: every reschedulable pod of the removed nodes has a home on a remaining initialized node or the single replacement and passes the admission oracle there; every instance type the created replacement NodeClaim lists has a worst-case launch price (reserved > spot > on-demand) strictly below the candidates' combined price; no on-demand fallback at >= that price when a candidate is on-demand; spot-to-spot only with the gate on and, single-node, with >=15 options truncated to 15; nodes deleted as empty host no reschedulable pod with positive eviction cost. non-trivial = distinct case with a consolidation (non-Empty) command", len(cases), loadNames())
 		r.Assumptions = []string{"prices come from the harness's catalog description", "every candidate subset the search visits is visited by the real code; only accepted commands are judged"}
 		enum.Run(r, int64(len(cases)), func(idx int64, l *ev.Local) {
 			c := cases[idx]
+			if only := os.Getenv("C06_ONLY"); only != "" && !strings.Contains(c.String(), only) {
+				return
+			}
 			env := buildDisrupt(c.world())
+			if os.Getenv("C06_ONLY") != "" {
+				defer func() { fmt.Println("C06 case:", c.String(), "\n  calls:", strings.Join(callStrings(env.W), "\n         ")) }()
+			}
 			var all []*disruptionCommand
 			for round := 0; round < 2; round++ {
 				cmds, err := env.round("Emptiness", "MultiNodeConsolidation", "SingleNodeConsolidation")
